@@ -250,8 +250,17 @@ func scenario(d Desc) (first, again prog.Obs, trace []string, killed []string) {
 	}
 	t1 := time.Now()
 	again, _ = prog.RunOnce(s, d.Prog, "", 120*time.Second)
+	// machines that the driver gave up on although we did not kill them (their keepalive
+	// timed out, e.g. on a starved host): further losses, outside the scenario's plan
+	ip.mu.Lock()
+	for _, m := range ip.machines {
+		if st := m.State(); st != bigmachine.Running && st != bigmachine.Starting && st != bigmachine.Unstarted {
+			killed = append(killed, "unplanned:"+m.Addr)
+		}
+	}
+	ip.mu.Unlock()
 	if os.Getenv("VERIF_DEBUG") != "" {
-		fmt.Fprintf(os.Stderr, "     again=%s %.1fs msg=%.100s\n", again.Err, time.Since(t1).Seconds(), again.ErrMsg)
+		fmt.Fprintf(os.Stderr, "     again=%s %.1fs msg=%.100s killed=%v\n", again.Err, time.Since(t1).Seconds(), again.ErrMsg, killed)
 	}
 	return
 }
@@ -414,7 +423,15 @@ func main() {
 			continue
 		}
 		r := results[i]
-		term := vf.App("mkCase", d.Prog.Term(), vf.Nat(len(r.killed)), obsTerm(r.first), obsTerm(r.again))
+		planned, unplanned := 0, 0
+		for _, k := range r.killed {
+			if strings.HasPrefix(k, "unplanned:") {
+				unplanned++
+			} else {
+				planned++
+			}
+		}
+		term := vf.App("mkCase", d.Prog.Term(), vf.Nat(planned), vf.Nat(unplanned), obsTerm(r.first), obsTerm(r.again))
 		nt := ""
 		if len(r.killed) > 0 {
 			nt = vf.Hash(fmt.Sprint(d))
